@@ -100,6 +100,9 @@ def run(chk):
     for m in ('Lifecycle', 'Gen_Lifecycle', 'Trace_Lifecycle'):
         sany(m)
     chk.add_tlc(model_check('Gen_Lifecycle', f'MC_Lifecycle_{tier}.cfg', timeout=1700, heap='12g'))
+    # start events (frappy/lib/multievent.py): set iff nothing pending, queued actions exactly once, bounded wait
+    sany('MultiEvent')
+    chk.add_tlc(model_check('MultiEvent', 'MC_MultiEvent.cfg', timeout=600))
     r, behs = emit_behaviours('Gen_Lifecycle', f'Gen_Lifecycle_{tier}.cfg', maximal_only=False, timeout=900)
     chk.add_tlc(r)
     rnd = random.Random(chk.seed + 5)
